@@ -21,7 +21,7 @@ RULE = (
     "differ from the base key, number of stored keys); non-trivial = at least 2 stored keys"
 )
 ASSUMPTIONS = [
-    "explicit writes of b'' under a non-blank default are not generated (the statement's 'value or default' is ambiguous there)",
+    "an explicitly written b'' is a VALUE: its leaf is keccak(b'') and it reads as absent (get raises KeyError, exists false) also under a non-blank default; only a cleared key takes the default",
     "reference vt/ref/smt.py",
 ]
 EXHAUSTIVE = {
@@ -31,7 +31,8 @@ EXHAUSTIVE = {
 FLOORS = {"quick": {k: 1 for k in [
     "audits", "lookups_readable", "lookups_blank", "calc_root_checks", "returned_hashes_checked", "from_db_checks",
     "cleared_to_initial", "default_blank", "default_nonblank", "ks_1", "ks_2", "ks_3", "ks_8", "ks_20", "ks_32",
-    "op_set_new", "op_overwrite", "op_delete_present", "op_delete_absent", "bitpos_pairs"]}}
+    "op_set_new", "op_overwrite", "op_delete_present", "op_delete_absent", "bitpos_pairs",
+    "op_set_blank_default_nonblank", "op_set_blank_default_blank"]}}
 FLOORS["thorough"] = dict(FLOORS["quick"])
 
 DEFAULTS = [b"", b"", b"\x00" * 32, b"dflt"]
@@ -58,7 +59,10 @@ def gen_case(rnd, tier, ks=None):
     for _ in range(rnd.randint(1, 12 if tier == "quick" else 30)):
         k = rnd.choice(sorted(keys)) if keys and rnd.random() < 0.4 else rk()
         if rnd.random() < 0.65:
-            v = bytes([rnd.randrange(1, 256)]) * rnd.choice([1, 2, 31, 32, 33, 40])
+            if rnd.random() < 0.1:
+                v = b""   # an explicitly blank value: reads as absent, whatever the default is
+            else:
+                v = bytes([rnd.randrange(1, 256)]) * rnd.choice([1, 2, 31, 32, 33, 40])
             ops.append(["set", k.to_bytes(ks, "big").hex(), v.hex()])
             keys.add(k)
         else:
@@ -121,6 +125,8 @@ def run_case(case, ctx):
         if op[0] == "set":
             v = unhx(op[2])
             ctx.count("op_overwrite" if k in m else "op_set_new")
+            if v == b"":
+                ctx.count("op_set_blank_default_nonblank" if default else "op_set_blank_default_blank")
             upd = cut(smt.set, kb, v) if not (len(op) > 3 and op[3]) else cut(smt.__setitem__, kb, v)
             m[k] = v
         else:
